@@ -104,7 +104,8 @@ fam('env', depth=2, maxstack=3,
     alphabet=[('AMOUNT',), ('BALANCE',), ('SENDER',), ('SOURCE',), ('SELF_ADDRESS',), ('NOW',), ('LEVEL',), ('CHAIN_ID',), ('ADD',), ('COMPARE',), ('PAIR', 2), DROP(1)])
 
 fam('hash', depth=3, maxstack=3,
-    inits=[(S(BYT, b([])),), (S(BYT, b([0, 255, 16])),), (S(BYT, b([7] * 135)),), (S(BYT, b([9] * 136)),), (S(BYT, b([200] * 55)),)],     # lengths next to the block / padding boundaries
+    inits=[(S(BYT, b([])),), (S(BYT, b([0, 255, 16])),), (S(BYT, b([7] * 135)),), (S(BYT, b([9] * 136)),), (S(BYT, b([200] * 55)),),
+           (S(BYT, b([3] * 272)),), (S(BYT, b(list(range(256)) + [1] * 17)),), (S(BYT, b([5] * 137)),), (S(BYT, b([6] * 1100)),)],     # lengths next to the block / padding boundaries, and two / many complete blocks
     alphabet=[('BLAKE2B',), ('SHA256',), ('SHA512',), ('SHA3',), ('KECCAK',), DUP(1), ('SIZE',), ('PAIR', 2)])
 
 KI = [i(1), i(2), i(3)]
@@ -122,3 +123,27 @@ fam('collget', depth=3, maxstack=3,
               ('SIZE',), DUP(2), ('SWAP',),
               # a copy is a value of its own: update the copy (a new key / a removal), the original below stays what it was
               ('SEQ', (DUP(1), PUSH(OPT(STR), some(s('n'))), PUSH(INT, i(7)), ('UPDATEK',))), ('SEQ', (DUP(1), PUSH(OPT(STR), none), PUSH(INT, i(1)), ('UPDATEK',)))])
+
+
+# collections far larger than the exhaustive key pools: implementations that switch algorithm with size (bisection above a threshold, a hash index, a
+# re-sort skipped "because the list is already sorted") behave the same up to a handful of entries and differently beyond
+def _bigmap(n):
+    return ('map', tuple((i(2 * k), s('v%d' % (2 * k))) for k in range(1, n + 1)))
+
+
+def _bigset(n):
+    return ('set', tuple(i(2 * k) for k in range(1, n + 1)))
+
+
+_BK = [0, 2, 7, 16, 18, 34, 40, 41, 100]     # below all, first, absent in the middle, present, last of 9, last of 17, last of 20, above, far above
+_mops, _sops = [], []
+for _k in _BK:
+    _mops += [('SEQ', (PUSH(OPT(STR), some(s('n'))), PUSH(INT, i(_k)), ('UPDATEK',))), ('SEQ', (PUSH(OPT(STR), none), PUSH(INT, i(_k)), ('UPDATEK',))),
+              ('SEQ', (DUP(1), PUSH(INT, i(_k)), ('GETK',), ('SWAP',))), ('SEQ', (DUP(1), PUSH(INT, i(_k)), ('MEM',), ('SWAP',))),
+              ('SEQ', (PUSH(OPT(STR), some(s('g'))), PUSH(INT, i(_k)), ('GET_AND_UPDATE',), ('SWAP',)))]
+    _sops += [('SEQ', (PUSH(BOOL, T_), PUSH(INT, i(_k)), ('UPDATEK',))), ('SEQ', (PUSH(BOOL, F_), PUSH(INT, i(_k)), ('UPDATEK',))),
+              ('SEQ', (DUP(1), PUSH(INT, i(_k)), ('MEM',), ('SWAP',)))]
+_mops += [('SEQ', (DUP(1), ('SIZE',), ('SWAP',))), ('SEQ', (DUP(1), ('NIL', P(INT, STR)), ('SWAP',), ('ITER', (('CONS',),)), ('SWAP',))), ('MAP', (('CDR',), ('SIZE',)))]
+_sops += [('SEQ', (DUP(1), ('SIZE',), ('SWAP',))), ('SEQ', (DUP(1), ('NIL', INT), ('SWAP',), ('ITER', (('CONS',),)), ('SWAP',)))]
+fam('bigmap', depth=2, maxstack=3, inits=[(S(MAP(INT, STR), _bigmap(n)),) for n in (9, 17, 20)], alphabet=_mops)
+fam('bigset', depth=2, maxstack=3, inits=[(S(SET(INT), _bigset(n)),) for n in (9, 17, 20)], alphabet=_sops)
